@@ -294,6 +294,32 @@ def case_mismatch(col, rng, index):
                       f"generator declared {n} outputs and yielded {ny}; runner.run did not raise" + (f" (failed later in {fail[0]}: {fail[1]!r:.80})" if fail else ""), wit, index)
 
 
+def case_store_keys(col, rng, index):
+    """The key under which a dataset travels through shared memory (ds2shmid) must tell any two datasets apart: families of
+    (task, output) pairs whose plain or separator-joined concatenations coincide must get pairwise distinct keys -- otherwise the
+    callable of a consumer receives another node's value (or the second store fails)."""
+    from cascade.executor.runner.memory import ds2shmid
+    from cascade.low.core import DatasetId
+    a = rng.choice(["t", "fc", "n1", "x.y", "a:b", "0"])
+    b = rng.choice(["1", "t2m", ".", "0", "b", "10"])
+    c = rng.choice(["0", "1", "x", "10", ".0"])
+    fam = []
+    for sep in ("", ".", ":", "_", "/", " "):
+        fam += [DatasetId(a + sep + b, c), DatasetId(a, b + sep + c), DatasetId(a + sep, b + c), DatasetId(a, sep + b + c)]
+    fam += [DatasetId(a + b, "0"), DatasetId(a, b + "0"), DatasetId(f"{len(a)}:{a}", b), DatasetId(a, f"{len(a)}:{b}")]
+    distinct = {(d.task, d.output) for d in fam}
+    keys = {}
+    col.count("store_key_families")
+    col.case(shape=("keys", a, b, c), nontrivial=True, sample={"family": [[d.task, d.output] for d in fam[:8]]})
+    for t, o in sorted(distinct):
+        k = ds2shmid(DatasetId(t, o))
+        col.count("store_keys_checked")
+        if k in keys and keys[k] != (t, o):
+            col.violation("store-key-collision", f"datasets {keys[k]!r} and {(t, o)!r} travel under the same shared-memory key {k}", {"a": keys[k], "b": (t, o)}, index)
+            return
+        keys[k] = (t, o)
+
+
 def run_shard(spec, col: Collector):
     import logging
     import warnings
@@ -306,7 +332,7 @@ def run_shard(spec, col: Collector):
         if col.want(i):
             rng = case_rng(seed, shard, i)
             r = rng.random()
-            fn = case_hand if r < 0.55 else (case_fluent if r < 0.85 else case_mismatch)
+            fn = case_hand if r < 0.55 else (case_fluent if r < 0.83 else (case_mismatch if r < 0.97 else case_store_keys))
             guarded(col, i, fn, col, rng, i)
 
 
